@@ -133,6 +133,7 @@ int main(int argc, char** argv)
     {
         g_incarnation_id = inc;
         int pol = (int) r.below(8);
+        if (pol == 7 && a.has("no-shared-priority")) pol = 1;    // TSan legs: see lib/runner.py (libtsan shadow stack vs migrating tasks)
         unsigned threads = 1 + (unsigned) r.below(8);
         std::uint64_t small = r.chance(1, 2) ? 0 : (0x8000 + 0x4000 * r.below(4));
         int code = 100 + inc * 7 + (int) r.below(5);
